@@ -6,7 +6,7 @@
 (* with arguments and results; TLC compares each result with the           *)
 (* definition.  Same reporting convention as Trace_Board.                  *)
 (***************************************************************************)
-EXTENDS Containers, Text, Json, IOUtils
+EXTENDS Containers, Text, Coord, Json, IOUtils
 
 Recs == ndJsonDeserialize(IOEnv.TRACE)
 NRecs == Len(Recs)
@@ -104,23 +104,6 @@ TraceFR == /\ IsEvent("fr")
                 \cup IF_(r.not # <<1, 0>>, {"Color::not"})
      IN Obs(IF_(bad # {}, {<<"C19", "file-rank-function", bad>>}))
 
-(* ---- text languages, on code points ---- *)
-CpFileT(c) == IF c >= 97 /\ c <= 104 THEN c - 97 ELSE -1
-CpRankT(c) == IF c >= 49 /\ c <= 56 THEN c - 49 ELSE -1
-CpKindLo(c) == CASE c = 112 -> PAWN [] c = 110 -> KNIGHT [] c = 98 -> BISHOP [] c = 114 -> ROOK
-                 [] c = 113 -> QUEEN [] c = 107 -> KING [] OTHER -> 0
-\* the value a text denotes, as the tuple the recorder logs, or <<-1>> when the text is not in the language
-Denote(ty, cp) ==
-  LET n == Len(cp) IN
-  CASE ty = "file" -> IF n = 1 /\ CpFileT(cp[1]) # -1 THEN <<CpFileT(cp[1])>> ELSE <<-1>>
-    [] ty = "rank" -> IF n = 1 /\ CpRankT(cp[1]) # -1 THEN <<CpRankT(cp[1])>> ELSE <<-1>>
-    [] ty = "piece" -> IF n = 1 /\ CpKindLo(cp[1]) # 0 THEN <<CpKindLo(cp[1])>> ELSE <<-1>>
-    [] ty = "color" -> IF n = 1 /\ cp[1] \in {119, 98} THEN <<IF cp[1] = 119 THEN 0 ELSE 1>> ELSE <<-1>>
-    [] ty = "square" -> IF n = 2 /\ CpFileT(cp[1]) # -1 /\ CpRankT(cp[2]) # -1 THEN <<SqOf(CpFileT(cp[1]), CpRankT(cp[2]))>> ELSE <<-1>>
-    [] ty = "move" -> IF /\ n \in {4, 5} /\ CpFileT(cp[1]) # -1 /\ CpRankT(cp[2]) # -1 /\ CpFileT(cp[3]) # -1 /\ CpRankT(cp[4]) # -1
-                         /\ (n = 5 => CpKindLo(cp[5]) \in {KNIGHT, BISHOP, ROOK, QUEEN})
-                      THEN <<SqOf(CpFileT(cp[1]), CpRankT(cp[2])), SqOf(CpFileT(cp[3]), CpRankT(cp[4])), IF n = 5 THEN CpKindLo(cp[5]) ELSE 0>>
-                      ELSE <<-1>>
 TraceTxt == /\ IsEvent("txt")
   /\ LET r == Recs[l]  d == Denote(r.ty, r.cp)
      IN Obs(IF_(r.k = "panic", {<<"C19", "parser-panicked", r.ty, r.cp>>})
